@@ -614,3 +614,114 @@ Proof.
     + assert (k = 1 \/ k = 2 \/ k = 3 \/ k = 4 \/ k = 5 \/ k = 6) as Hk by lia.
       destruct Hk as [-> | [-> | [-> | [-> | [-> | ->]]]]]; pow_norm; lia.
 Qed.
+
+(* ================= the executable spec used by the search is the declarative one ================= *)
+Lemma in_zrange lo hi x : lo <= x <= hi -> In x (zrange lo hi).
+Proof.
+  intros H. unfold zrange. apply in_map_iff. exists (Z.to_nat (x - lo)). split; [lia|].
+  apply in_seq. lia.
+Qed.
+Lemma zrange_in lo hi x : In x (zrange lo hi) -> lo <= x <= hi.
+Proof.
+  unfold zrange. intros H. apply in_map_iff in H. destruct H as (i & <- & Hi). apply in_seq in Hi. lia.
+Qed.
+
+Lemma all_forms_complete f : valid_form f -> In f all_forms.
+Proof.
+  intros V. unfold all_forms. apply in_or_app. destruct f as [m | x k | a b k]; cbn [valid_form] in V.
+  - left. apply in_map_iff. exists m. split; [reflexivity | apply in_zrange; lia].
+  - right. apply in_flat_map. exists k. split; [apply in_zrange; lia|].
+    apply in_or_app. right. apply in_map_iff. exists x. split; [reflexivity | apply in_zrange; lia].
+  - right. apply in_flat_map. exists k. split; [apply in_zrange; lia|].
+    apply in_or_app. left. apply in_flat_map. exists a. split; [apply in_zrange; lia|].
+    apply in_map_iff. exists b. split; [reflexivity | apply in_zrange; lia].
+Qed.
+
+Lemma all_forms_valid f : In f all_forms -> valid_form f.
+Proof.
+  unfold all_forms. intros H. apply in_app_or in H. destruct H as [H|H].
+  - apply in_map_iff in H. destruct H as (m & <- & Hm). apply zrange_in in Hm. cbn. lia.
+  - apply in_flat_map in H. destruct H as (k & Hk & H). apply zrange_in in Hk.
+    apply in_app_or in H. destruct H as [H|H].
+    + apply in_flat_map in H. destruct H as (a & Ha & H). apply zrange_in in Ha.
+      apply in_map_iff in H. destruct H as (b & <- & Hb). apply zrange_in in Hb. cbn. lia.
+    + apply in_map_iff in H. destruct H as (x & <- & Hx). apply zrange_in in Hx. cbn. lia.
+Qed.
+
+(* the filtered arg-max fold *)
+Lemma best_fold n l : forall v0 f0,
+  v0 = form_value f0 -> v0 <= n ->
+  let r := fold_left (fun best vf => if (fst vf <=? n) && (fst best <? fst vf) then vf else best)
+                     (map (fun f => (form_value f, f)) l) (v0, f0) in
+  fst r = form_value (snd r) /\ (snd r = f0 \/ In (snd r) l) /\ fst r <= n /\ v0 <= fst r /\
+  forall g, In g l -> form_value g <= n -> form_value g <= fst r.
+Proof.
+  induction l as [|g l IH]; intros v0 f0 E0 L0; cbv zeta.
+  - cbn. repeat split; auto; try lia; intros g' [].
+  - cbn [map fold_left fst snd].
+    destruct (Z.leb_spec (form_value g) n) as [Lg|Lg]; cbn [andb].
+    + destruct (Z.ltb_spec v0 (form_value g)) as [Better|Worse].
+      * specialize (IH (form_value g) g eq_refl Lg). cbv zeta in IH.
+        destruct IH as (I1 & I2 & I3 & I4 & I5). repeat split; auto; try lia.
+        { destruct I2 as [->|I2]; right; [left; reflexivity | right; exact I2]. }
+        intros h [<-|Hh] Hv; [lia | apply I5; assumption].
+      * specialize (IH v0 f0 E0 L0). cbv zeta in IH.
+        destruct IH as (I1 & I2 & I3 & I4 & I5). repeat split; auto.
+        { destruct I2 as [->|I2]; [left; reflexivity | right; right; exact I2]. }
+        intros h [<-|Hh] Hv; [lia | apply I5; assumption].
+    + specialize (IH v0 f0 E0 L0). cbv zeta in IH.
+      destruct IH as (I1 & I2 & I3 & I4 & I5). repeat split; auto.
+      { destruct I2 as [->|I2]; [left; reflexivity | right; right; exact I2]. }
+      intros h [<-|Hh] Hv; [lia | apply I5; assumption].
+Qed.
+
+Lemma best_form_spec n : 0 <= n ->
+  valid_form (best_form n) /\ form_value (best_form n) <= n /\
+  forall v, representable v -> v <= n -> v <= form_value (best_form n).
+Proof.
+  intros Hn. unfold best_form, all_valued.
+  pose proof (best_fold n all_forms 0 (FSmall 0) eq_refl Hn) as B. cbv zeta in B.
+  destruct B as (B1 & B2 & B3 & B4 & B5). rewrite <- B1.
+  split; [|split].
+  - destruct B2 as [->|B2]; [cbn; lia | apply all_forms_valid, B2].
+  - exact B3.
+  - intros v (g & Vg & <-) Hv. apply B5; [apply all_forms_complete, Vg | exact Hv].
+Qed.
+
+(* distinct documented forms denote distinct values *)
+Lemma form_value_injective f g :
+  valid_form f -> valid_form g -> form_value f = form_value g -> f = g.
+Proof.
+  intros Vf Vg E.
+  destruct f as [m | x k | a b k], g as [m' | x' k' | a' b' k']; cbn [valid_form form_value] in *;
+    try (assert (k = 1 \/ k = 2 \/ k = 3 \/ k = 4 \/ k = 5 \/ k = 6) as Hk by lia);
+    try (assert (k' = 1 \/ k' = 2 \/ k' = 3 \/ k' = 4 \/ k' = 5 \/ k' = 6) as Hk' by lia).
+  - f_equal. lia.
+  - exfalso. destruct Hk' as [-> | [-> | [-> | [-> | [-> | ->]]]]]; pow_norm; lia.
+  - exfalso. destruct Hk' as [-> | [-> | [-> | [-> | [-> | ->]]]]]; pow_norm; lia.
+  - exfalso. destruct Hk as [-> | [-> | [-> | [-> | [-> | ->]]]]]; pow_norm; lia.
+  - destruct Hk as [-> | [-> | [-> | [-> | [-> | ->]]]]];
+      destruct Hk' as [-> | [-> | [-> | [-> | [-> | ->]]]]]; pow_norm;
+      try (exfalso; lia); f_equal; lia.
+  - exfalso. destruct Hk as [-> | [-> | [-> | [-> | [-> | ->]]]]];
+      destruct Hk' as [-> | [-> | [-> | [-> | [-> | ->]]]]]; pow_norm; lia.
+  - exfalso. destruct Hk as [-> | [-> | [-> | [-> | [-> | ->]]]]]; pow_norm; lia.
+  - exfalso. destruct Hk as [-> | [-> | [-> | [-> | [-> | ->]]]]];
+      destruct Hk' as [-> | [-> | [-> | [-> | [-> | ->]]]]]; pow_norm; lia.
+  - destruct Hk as [-> | [-> | [-> | [-> | [-> | ->]]]]];
+      destruct Hk' as [-> | [-> | [-> | [-> | [-> | ->]]]]]; pow_norm;
+      try (exfalso; lia); assert (a = a' /\ b = b') as [-> ->] by lia; reflexivity.
+Qed.
+
+(* so the string humansize produces is the one the executable spec produces, for every 64-bit n *)
+Theorem humansize_is_spec_proof n :
+  0 <= n < 2 ^ 64 -> humansize_repo n = Ok (hs_format_spec n).
+Proof.
+  intros Hn. destruct (humansize_greatest_proof n Hn) as (f & Vf & Ef & Lf & Gf).
+  destruct (best_form_spec n ltac:(lia)) as (Vb & Lb & Gb).
+  rewrite Ef. unfold hs_format_spec. f_equal. f_equal.
+  apply form_value_injective; [exact Vf | exact Vb |].
+  assert (form_value f <= form_value (best_form n)) by (apply Gb; [exists f; auto | exact Lf]).
+  assert (form_value (best_form n) <= form_value f) by (apply Gf; [exists (best_form n); auto | exact Lb]).
+  lia.
+Qed.
